@@ -12,7 +12,7 @@ Fixpoint vlookup (t : vtable) (kind : bool) (a b : atom) : option marker :=
   | (k, x, y, r) :: t' => if Bool.eqb k kind && atom_eqb x a && atom_eqb y b then r else vlookup t' kind a b
   end.
 Definition perm_of (k : nat) (l : list marker) : list marker :=
-  match k with O => l | 1%nat => rev l | 2%nat => match l with x :: y :: t => y :: x :: t | _ => l end | _ => match rev l with x :: y :: t => y :: x :: t | _ => l end end.
+  match k with O => l | 1%nat => rev l | 2%nat => match l with x :: y :: t => y :: x :: t | _ => l end | 3%nat => match rev l with x :: y :: t => y :: x :: t | _ => l end | _ => l end.
 
 (* structural identity (finer than ==: value order of groups matters) *)
 Fixpoint strs_same (a b : list str) : bool :=
@@ -25,6 +25,28 @@ Fixpoint marker_same (a b : marker) : bool :=
   | MMulti l, MMulti l' | MUnion l, MUnion l' =>
       (fix go (l l' : list marker) : bool :=
          match l, l' with [], [] => true | x :: t, y :: t' => marker_same x y && go t t' | _, _ => false end) l l'
+  | _, _ => false
+  end.
+(* identity up to the order of the children of compounds (and of the values of groups): the last resort when the iteration order of
+   several Python sets in one operation is matched by none of the uniform selectors perm_of 0..3 *)
+Fixpoint marker_psame (fuel : nat) (a b : marker) {struct fuel} : bool :=
+  match fuel with
+  | O => false
+  | S f =>
+      match a, b with
+      | MAny, MAny | MEmpty, MEmpty => true
+      | MAtom x, MAtom y => atom_eqb x y
+      | MEqU n v, MEqU n' v' | MNeM n v, MNeM n' v' => str_eqb n n' && set_eqb v v'
+      | MMulti l, MMulti l' | MUnion l, MUnion l' =>
+          Nat.eqb (List.length l) (List.length l')
+          && forallb (fun x => existsb (marker_psame f x) l') l && forallb (fun y => existsb (fun x => marker_psame f x y) l) l'
+      | _, _ => false
+      end
+  end.
+Definition mres_psame (a b : pyres marker) : bool :=
+  match a, b with
+  | Ret x, Ret y => marker_psame 40 x y
+  | Raise e, Raise e' => exn_eqb e e'
   | _, _ => false
   end.
 Definition mres_same (a b : pyres marker) : bool :=
@@ -83,12 +105,13 @@ Fixpoint assoc_atom (l : list (atom * bool)) (a : atom) : bool :=
   match l with [] => false | (x, v) :: l' => if atom_eqb x a then v else assoc_atom l' a end.
 
 Definition check_mcase (c : mcase) : bool :=
+  let same := fun (k : nat) => if Nat.leb 4 k then mres_psame else mres_same in
   match c with
-  | MCAnd t k a b r => mres_same (And (vlookup t) (perm_of k) a b) r
-  | MCOr t k a b r => mres_same (Or (vlookup t) (perm_of k) a b) r
-  | MCParse t k p r => mres_same (build (vlookup t) (perm_of k) 32 p) r
-  | MCExclude t k n a r => mres_same (mexclude (vlookup t) (fun _ _ => false) (perm_of k) FUEL n a) r
-  | MCOnly t k ns a r => mres_same (monly (vlookup t) (fun _ _ => false) (perm_of k) FUEL ns a) r
+  | MCAnd t k a b r => same k (And (vlookup t) (perm_of k) a b) r
+  | MCOr t k a b r => same k (Or (vlookup t) (perm_of k) a b) r
+  | MCParse t k p r => same k (build (vlookup t) (perm_of k) 32 p) r
+  | MCExclude t k n a r => same k (mexclude (vlookup t) (fun _ _ => false) (perm_of k) FUEL n a) r
+  | MCOnly t k ns a r => same k (monly (vlookup t) (fun _ _ => false) (perm_of k) FUEL ns a) r
   | MCEval a svars ex vt r => Bool.eqb (meval (mkMEnv (assoc_str svars) ex (assoc_atom vt)) a) r
   end.
 
